@@ -168,6 +168,13 @@ func Catch(f func()) (p any, stack string) {
 // Finish writes the result and exits 0 (the parent decides the verdict from the file).
 func Finish(c *Cfg, r *report.Result, start time.Time) {
 	pprof.StopCPUProfile()
+	if pf := os.Getenv("VERIF_HEAPPROFILE"); pf != "" { // development aid
+		if f, err := os.Create(pf); err == nil {
+			runtime.GC()
+			pprof.WriteHeapProfile(f)
+			f.Close()
+		}
+	}
 	r.Observe("wall_s", time.Since(start).Seconds())
 	r.Observe("variant", c.Variant)
 	if c.Out != "" {
